@@ -360,7 +360,59 @@ def scheme_shape_probe(nat, fixed, variadic, nargs, ndefs, nbody):
 
 
 # ================================================================================================ eval_tail_expression
+def install_generic_formals(ex, only_split=False):
+    """parameter lists as abstract objects for code that walks them through an API the unit's own stubs do not cover:
+    (fixed, variadic) per formals object is symbolic, the names are p0.. and rest"""
+    ar = Arity(ex)
+
+    def shape(fo):
+        key = getattr(fo, "name", None) or "formals"
+        return ar.of(key.split(".")[0] if "." in key else key)
+
+    @stub(ex, r"ParameterFormalsBody>>::split$", "ParameterFormals::split -> (the fixed names, the rest name iff variadic) of the abstract parameter list")
+    def formals_split(ex_, callee, args, rt):
+        fx, va = shape(ex_.deref(args[0]))
+        for k in ex_.branches([fx == i for i in range(MAXARGS + 1)]):
+            names = SeqObj(ex_.fresh_name("fixed_names"), "String", [Cell(StrVal("p%d" % i)) for i in range(k)] + [Cell(None)], k, k + 1)
+            for b in ex_.branches([va, z3.Not(va)]):
+                yield Ok(Tup([names, Some(StrVal("rest")) if b == 0 else NONE]))
+
+    if only_split:
+        return ar
+
+    @stub(ex, r"ParameterFormalsBody>>::len$", "ParameterFormals::len -> symbolic (fixed, variadic)")
+    def formals_len(ex_, callee, args, rt):
+        fx, va = shape(ex_.deref(args[0]))
+        yield Tup([fx, va])
+
+    @stub(ex, r"ParameterFormalsBody>>::iter_to_last", "ParameterFormals::iter_to_last over the abstract parameter list")
+    def iter_to_last(ex_, callee, args, rt):
+        fx, va = shape(ex_.deref(args[0]))
+        visitor = args[1]
+        for k in ex_.branches([fx == i for i in range(MAXARGS + 1)]):
+            def visit(i):
+                if i == k:
+                    for b in ex_.branches([va, z3.Not(va)]):
+                        yield Some(Ref(Cell(Formal("rest")))) if b == 0 else NONE
+                    return
+                clo = Ref(Cell(visitor)) if not isinstance(visitor, Ref) else visitor
+                for _ in ex_.call_closure(clo, [Ref(Cell(Formal("p%d" % i)))]):
+                    yield from visit(i + 1)
+            yield from visit(0)
+
+    @stub(ex, r"ParameterFormalsBody>>::as_name$", "ParameterFormals::as_name -> the formal's name")
+    def as_name(ex_, callee, args, rt):
+        fo = ex_.deref(args[0])
+        if not isinstance(fo, Formal):
+            raise Unsupported("as_name of %r" % (fo,))
+        yield StrVal(fo.name)
+    return ar
+
+
 def run_eval_tail(chk, ex, depth, on_path):
+    install_generic_formals(ex)
+
+
     @stub(ex, r"::eval_expression$", "eval_expression -> any Ok(value) or any Err; logged")
     def eval_expr(ex, callee, args, rt):
         n = len([e for e in ex.events if e["kind"] == "eval"])
